@@ -24,7 +24,7 @@ FlagSets == {up + uv + at + ed : up \in {0, FLAG_UP}, uv \in {0, FLAG_UV}, at \i
 
 MAX_CRED_ID == 65535
 
-ExtSchema(flavour) == CASE flavour = "mc" -> "McExt" [] flavour = "ga" -> "GaExtOut" [] flavour = "custom" -> "CallerExt" [] flavour = "wide" -> "CallerWide"
+ExtSchema(flavour) == CASE flavour \in {"mc", "raw"} -> "McExt" [] flavour = "ga" -> "GaExtOut" [] flavour = "custom" -> "CallerExt" [] flavour = "wide" -> "CallerWide"
 
 ExtBytes(in, F) == IF in.ext = << >> THEN << >> ELSE EncTy(T_Struct(ExtSchema(in.flavour)), in.ext[1], F)
 
